@@ -171,8 +171,13 @@ fn build_cases(tier: Tier) -> Vec<(String, Vec<Case>)> {
         ];
         for o in opts {
             // projections to half the size of a very long axis are quadratic: keep them to the
-            // ladder below 4 100 (thorough 20 000) entries
-            if n > tier.pick(4_100, 20_000) && (o.contains(&half.as_str()) || o.contains(&full.as_str()) || o.contains(&same.as_str())) && o.len() > 1 && o[1] != "-O" && o[1] != "--mask-monomorphic" {
+            // ladder below 4 100 (thorough 10 000) entries
+            if n > tier.pick(4_100, 10_000) && (o.contains(&half.as_str()) || o.contains(&full.as_str()) || o.contains(&same.as_str())) && o.len() > 1 && o[1] != "-O" && o[1] != "--mask-monomorphic" {
+                continue;
+            }
+            // a projection evaluates (entries x target entries) coefficients: beyond 1e8 of them a
+            // run takes minutes (slow is not a violation, and the cap would call it a hang)
+            if o.contains(&"172") && n * 172 > 100_000_000 {
                 continue;
             }
             g.push(case(&o, &input, &cls, format!("{} on shape {s:?}", o.join(" "))));
@@ -200,13 +205,18 @@ fn build_cases(tier: Tier) -> Vec<(String, Vec<Case>)> {
         let ones = vec!["1"; d].join(",");
         let fives = s.iter().map(|n| ((n - 1) / 2).min(5).to_string()).collect::<Vec<_>>().join(",");
         let halves = s.iter().map(|n| ((n - 1) / 4).max(1).min(tier.pick(8, 40)).to_string()).collect::<Vec<_>>().join(",");
+        // (entries x target entries) coefficients per projection: targets beyond 1e8 are left out
+        let cells: usize = s.iter().product();
+        let work = |targets: &str| -> usize { cells.saturating_mul(targets.split(',').map(|t| 2 * t.parse::<usize>().unwrap_or(0) + 1).product::<usize>()) };
+        let too_slow = |targets: &str| work(targets) > 100_000_000;
+        let ones_ok = !too_slow(&ones);
         let opts: Vec<Vec<&str>> = vec![
             vec!["view"],
             vec!["view", "-O", "npy"],
             vec!["view", "--mask-monomorphic", "--normalize"],
-            vec!["view", "-p", &ones],
-            vec!["view", "-p", &fives],
-            vec!["view", "-p", &halves],
+            if ones_ok { vec!["view", "-p", &ones] } else { vec!["view"] },
+            if too_slow(&fives) { vec!["view"] } else { vec!["view", "-p", &fives] },
+            if too_slow(&halves) { vec!["view"] } else { vec!["view", "-p", &halves] },
             vec!["view", "-m", "0"],
             vec!["view", "-M", "0"],
             vec!["view", "-m", "0", "-p", "1", "-O", "npy"],
